@@ -2,6 +2,8 @@ import RdsProofs.Reach
 import RdsProofs.CellsProofs
 import RdsProofs.RefineProofs
 import RdsProofs.LinkProofs
+import RdsProofs.C04Proofs
+import RdsProofs.C08Cb
 /-!
 # Property C08 — RadioText A/B protocol: switch empties the new buffer, noisy flags are ignored
 
@@ -13,6 +15,8 @@ reset (`Mon.group`), and equals the model's `lastRt` in every reachable state (`
 `C08_other_buffer`, `C08_noisy`, `C08_first_flag` are the property's sentences on `expectedText`.
 -/
 -- THEOREM: RDS.C08
+-- THEOREM: RDS.C08_callback
+-- THEOREM: RDS.C08_first_processed
 -- THEOREM: RDS.C08_other_buffer
 -- THEOREM: RDS.C08_noisy
 -- THEOREM: RDS.C08_first_flag
@@ -23,6 +27,18 @@ theorem C08 (tb : Tabs) (h : EccOk tb) (ops : List Op) (op : Op) :
     chkC08 (monAfter tb.cfg ops) (recOf tb.cfg (run tb.cfg ops) op) = true := by
   have hr := reach tb h ops
   exact chkC08_ok tb _ _ op hr.1 hr.2
+
+/-- C08's callback clause for every history: a switch that empties the new flag's buffer is reported by exactly one RT
+callback carrying that flag (while an RT callback is registered) -/
+theorem C08_callback (tb : Tabs) (h : EccOk tb) (ops : List Op) (op : Op) :
+    chkC08cb (monAfter tb.cfg ops) (recOf tb.cfg (run tb.cfg ops) op) = true :=
+  chkC08cb_of_chkC04 _ _ (chkC04_ok tb _ _ op (reach tb h ops).1 (reach tb h ops).2)
+
+/-- C08's first-flag clause for every history: while no flag has been seen since the last reset, a type-2 group — also one
+whose block B has errors — is neither a switch nor ignored as a bit-flip: both RT buffers are exactly the expected ones -/
+theorem C08_first_processed (tb : Tabs) (h : EccOk tb) (ops : List Op) (op : Op) :
+    chkC08first tb.cfg (monAfter tb.cfg ops) (recOf tb.cfg (run tb.cfg ops) op) = true :=
+  chkC08first_of_chkCells _ _ _ (chkCells_ok tb _ _ op (reach tb h ops).1 (reach tb h ops).2)
 
 /-- every cell a type-2 group addresses lies in the buffer selected by its flag -/
 theorem addressed_type2_text (g : Group) (h2 : g.type = 2) : ∀ a ∈ addressed g, a.1 = 1 + g.b / 16 % 2 := by
